@@ -199,7 +199,8 @@ def write_svg(matrix, matrix_size, out, colormap, scale=1, border=None, xmldecl=
     if need_background:
         # Additional path for the background, will be modified after
         # the SVG paths have been generated
-        coordinates[colormap[consts.TYPE_QUIET_ZONE]] = [(0, 0, width // scale)]
+        bg_width, bg_height = get_symbol_size(matrix_size, scale=1, border=border)
+        coordinates[colormap[consts.TYPE_QUIET_ZONE]] = [(0, 0, bg_width)]
     if not draw_transparent:
         try:
             del coordinates[None]
@@ -233,7 +234,7 @@ def write_svg(matrix, matrix_size, out, colormap, scale=1, border=None, xmldecl=
         k = colormap[consts.TYPE_QUIET_ZONE]
         paths[k] = re.sub(r'\sclass="[^"]+"', '',
                           paths[k].replace('stroke', 'fill')
-                                  .replace('"/>', f'v{height // scale}h-{width // scale}z"/>'))
+                                  .replace('"/>', f'v{bg_height}h-{bg_width}z"/>'))
     svg = ''
     if xmldecl:
         svg += '<?xml version="1.0"'
